@@ -161,3 +161,53 @@ func (t *Table) CallsHelperWithoutLock(v int) {
 	t.setLocked(v)
 	t.mu.RUnlock()
 }
+
+// --- locks handed out by a function, critical sections, loops ---
+
+type Sharded struct {
+	shards [4]sync.Mutex
+	vals   map[int]int
+}
+
+func (s *Sharded) shard(k int) *sync.Mutex { return &s.shards[k&3] }
+func (s *Sharded) read(k int) int         { return s.vals[k] }
+func (s *Sharded) write(k, v int)         { s.vals[k] = v }
+
+// IncrementAtomic reads and writes inside one critical section of the key's shard: fine.
+func (s *Sharded) IncrementAtomic(k int) {
+	l := s.shard(k)
+	l.Lock()
+	v := s.read(k)
+	s.write(k, v+1)
+	l.Unlock()
+}
+
+// IncrementSplit releases the shard between the read and the write (lost update).
+func (s *Sharded) IncrementSplit(k int) {
+	l := s.shard(k)
+	l.Lock()
+	v := s.read(k)
+	l.Unlock()
+	l.Lock()
+	s.write(k, v+1)
+	l.Unlock()
+}
+
+// IncrementLateLock reads before taking the shard.
+func (s *Sharded) IncrementLateLock(k int) {
+	v := s.read(k)
+	l := s.shard(k)
+	l.Lock()
+	s.write(k, v+1)
+	l.Unlock()
+}
+
+// LeakyLoop leaves the lock held at the end of an iteration (the next one relocks).
+func (p *Pair) LeakyLoop(n int) {
+	for i := 0; i < n; i++ {
+		p.first.Lock()
+		if i%2 == 0 {
+			p.first.Unlock()
+		}
+	}
+}
